@@ -9,6 +9,11 @@ import (
 
 // harnessAPI intercepts the vf* vocabulary (DESIGN §4).
 func (m *Machine) harnessAPI(fn *ssa.Function, a []Value) (Value, bool) {
+	if m.Concrete != nil {
+		if v, ok := m.concreteAPI(fn, a); ok {
+			return v, true
+		}
+	}
 	switch fn.Name() {
 	case "vfString":
 		return m.nondetVar(m.constName(a[0]), SString), true
@@ -96,14 +101,14 @@ func (m *Machine) harnessAPI(fn *ssa.Function, a []Value) (Value, bool) {
 			parts[i] = FromCode(c)
 		}
 		return fromTerm(Concat(parts...)), true
-	case "vfRegister":
+	case "vfRegister", "vfObserve":
 		return nil, true
 	case "vfAny":
 		return m.vfAny(m.constName(a[0]), int(a[1].(int64))), true
 	case "vfIsSymbolicRun":
 		return true, true
 	case "vfQuote":
-		return fromTerm(App("Q", SString, toTerm(a[0]))), true
+		return fromTerm(Quote(toTerm(a[0]))), true
 	case "vfFloatText":
 		// text that strconv.FormatFloat(x,'f',-1,64) yields for a finite float
 		v := m.nondetVar(m.constName(a[0]), SString)
@@ -207,4 +212,136 @@ func (m *Machine) vfAny(name string, depth int) Value {
 		return Iface{T: tt, V: zero(tt)}
 	}
 	panic("unreachable")
+}
+
+// concreteAPI: harness vocabulary when replaying a witness model concretely.
+func (m *Machine) concreteAPI(fn *ssa.Function, a []Value) (Value, bool) {
+	lookup := func(v *Term) (ModelVal, bool) {
+		mv, ok := m.Concrete[v.S]
+		return mv, ok
+	}
+	switch fn.Name() {
+	case "vfString":
+		v := m.nondetVar(m.constName(a[0]), SString)
+		mv, _ := lookup(v)
+		return mv.S, true
+	case "vfInt":
+		v := m.nondetVar(m.constName(a[0]), SInt)
+		mv, _ := lookup(v)
+		return mv.I, true
+	case "vfBool":
+		v := m.nondetVar(m.constName(a[0]), SBool)
+		mv, _ := lookup(v)
+		return mv.B, true
+	case "vfFloatText":
+		v := m.nondetVar(m.constName(a[0]), SString)
+		mv, _ := lookup(v)
+		return mv.S, true
+	case "vfCharString", "vfASCIIString":
+		name := m.constName(a[0])
+		n := int(a[1].(int64))
+		out := make([]rune, n)
+		for i := range out {
+			v := m.nondetVar(fmt.Sprintf("%s[%d]", name, i), SInt)
+			mv, _ := lookup(v)
+			out[i] = rune(mv.I)
+		}
+		return string(out), true
+	case "vfChoice":
+		return m.concreteChoice(m.constName(a[0])), true
+	case "vfAny":
+		return m.concreteAny(m.constName(a[0]), int(a[1].(int64))), true
+	case "vfAssume":
+		b, ok := a[0].(bool)
+		if !ok {
+			unsupported("concrete self-test: assumption stayed symbolic: %s", truncate(toTerm(a[0]).SMT(), 200))
+		}
+		if !b {
+			panic(pathAbort{"assume false"})
+		}
+		return nil, true
+	case "vfAssert":
+		b, ok := a[0].(bool)
+		if !ok {
+			unsupported("concrete self-test: assertion %q stayed symbolic: %s", m.constName(a[1]), truncate(toTerm(a[0]).SMT(), 200))
+		}
+		m.Trace = append(m.Trace, fmt.Sprintf("assert:%s=%v", m.constName(a[1]), b))
+		return nil, true
+	case "vfAssertKnown":
+		b, ok := a[0].(bool)
+		if !ok {
+			unsupported("concrete self-test: assertion %q stayed symbolic", m.constName(a[1]))
+		}
+		m.Trace = append(m.Trace, fmt.Sprintf("assert:%s=%v", m.constName(a[1]), b))
+		return nil, true
+	case "vfReach":
+		m.Trace = append(m.Trace, "reach:"+m.constName(a[0]))
+		return nil, true
+	case "vfObserve":
+		s, ok := a[1].(string)
+		if !ok {
+			unsupported("concrete self-test: observation %q stayed symbolic", m.constName(a[0]))
+		}
+		m.Trace = append(m.Trace, "obs:"+m.constName(a[0])+"="+s)
+		return nil, true
+	case "vfIsSymbolicRun":
+		return false, true
+	}
+	return nil, false
+}
+
+func (m *Machine) concreteChoice(name string) int64 {
+	base := "choice:" + name
+	k := m.nondetNames[base]
+	m.nondetNames[base] = k + 1
+	if k > 0 {
+		base = fmt.Sprintf("%s__%d", base, k)
+	}
+	return m.Concrete[base].I
+}
+
+func (m *Machine) concreteAny(name string, depth int) Value {
+	kinds := AnyKinds
+	switch kinds[m.concreteChoice(name+".kind")] {
+	case "nil":
+		return Iface{}
+	case "string":
+		return Iface{T: types.Typ[types.String], V: m.Concrete[m.nondetVar(name+".str", SString).S].S}
+	case "int":
+		return Iface{T: types.Typ[types.Int], V: m.Concrete[m.nondetVar(name+".int", SInt).S].I}
+	case "bool":
+		return Iface{T: types.Typ[types.Bool], V: m.Concrete[m.nondetVar(name+".bool", SBool).S].B}
+	case "uint64":
+		return Iface{T: types.Typ[types.Uint64], V: m.Concrete[m.nondetVar(name+".uint", SInt).S].I}
+	case "float64":
+		cls := []string{"finite", "+Inf", "-Inf", "NaN"}
+		c := m.concreteChoice(name + ".fclass")
+		sf := &SymFloat{Class: cls[c]}
+		if c == 0 {
+			sf.Text = StrT(m.Concrete[m.nondetVar(name+".ftext", SString).S].S)
+		} else {
+			sf.Text = StrT(cls[c])
+		}
+		return Iface{T: types.Typ[types.Float64], V: sf}
+	case "slice":
+		n := int(m.concreteChoice(name + ".len"))
+		es := make([]Value, n)
+		for i := range es {
+			es[i] = m.concreteAny(fmt.Sprintf("%s[%d]", name, i), depth-1)
+		}
+		anyT := types.NewInterfaceType(nil, nil)
+		return Iface{T: types.NewSlice(anyT), V: Slice{C: m.newCell(&Array{E: es}), Len: n, Cap: n}}
+	case "map":
+		n := int(m.concreteChoice(name + ".len"))
+		m.cellID++
+		mo := &MapObj{ID: m.cellID}
+		for i := 0; i < n; i++ {
+			mo.Keys = append(mo.Keys, m.Concrete[m.nondetVar(fmt.Sprintf("%s.key%d", name, i), SString).S].S)
+			mo.Vals = append(mo.Vals, m.concreteAny(fmt.Sprintf("%s.val%d", name, i), depth-1))
+		}
+		anyT := types.NewInterfaceType(nil, nil)
+		return Iface{T: types.NewMap(types.Typ[types.String], anyT), V: MapRef{M: mo}}
+	}
+	tt := m.pkgType("time", "Time")
+	return Iface{T: tt, V: zero(tt)}
 }
